@@ -87,11 +87,11 @@ def pick_pgn(r, mode, applist, want_fast=None):
     pools = []
     if want_fast is not False:
         pools += [(p, True) for p in FAST_BCAST + FAST_ADDR + (FAST_ADDR_LISTEN if mode == 0 else [])]
-        if applist:
+        if applist is True or (applist and 'fp1' in applist):
             pools += [(p, True) for p in APP_FAST]
     if want_fast is not True:
         pools += [(p, False) for p in SINGLE_BCAST + SINGLE_ADDR]
-        if applist:
+        if applist is True or (applist and ('sf1' in applist or 'sf0' in applist)):
             pools += [(p, False) for p in APP_SINGLE]
     return r.choice(pools)
 
@@ -133,8 +133,12 @@ def apply_loss(r, frames, kind):
 
 def cfg_line(r, mode, slots, t0, applist, only_known=False):
     s = 'NODE mode=%d ndev=1 src=%d q=40 slots=%d t0=%d' % (mode, OWN, slots, t0)
-    if applist:
+    if applist is True:
         s += ' fp1=%s sf1=%s' % (','.join(map(str, APP_FAST)), ','.join(map(str, APP_SINGLE)))
+    elif applist:
+        # any subset of the application's list setters (a single-frame list alone must leave the default fast-packet list in force: seed C02-15)
+        for k in applist:
+            s += ' %s=%s' % (k, ','.join(map(str, APP_FAST if k.startswith('fp') else APP_SINGLE)))
     if only_known:
         s += ' ok=1'
     return s
@@ -188,6 +192,8 @@ def random_stream(r, big=False):
     slots = r.choice([1, 2, 3, 4, 5, 5, 6, 7, 8])
     nsend = r.choice([1, 2, 2, 3, 3, 4, 5, 6, 8])
     applist = r.random() < 0.3
+    if applist and r.random() < 0.6:
+        applist = r.choice([('fp1',), ('sf1',), ('sf0',), ('sf0', 'fp1'), ('sf0', 'sf1', 'fp1'), ('sf0', 'sf1')])
     only_known = r.random() < 0.06
     t0 = r.choice(ORIGINS)
     srcs = r.sample([0, 1, 30, 31, 50, 51, 100, 200, 251, 253, 77, 23], nsend)
@@ -230,7 +236,16 @@ def random_stream(r, big=False):
     merged = [frame_op(*f) for f in interleave(r, streams)]
     ticks = r.choice([[], [], [1, 5, 20], [50, 99, 100, 101], [99, 100, 101, 200]])
     ops = sprinkle(r, merged, r.choice([0.02, 0.1, 0.3, 1.0]), ticks)
-    return cfg_line(r, mode, slots, t0, applist, only_known) + ' | ' + ' ; '.join(finish(ops))
+    pre = []
+    if r.random() < 0.12:
+        # handling / forwarding options set by the application at run time, in any order: only SetHandleOnlyKnownMessages matters (seed C02-14)
+        ok = only_known
+        for _o in range(r.randint(1, 4)):
+            w, b = r.randrange(5), r.randrange(2)
+            pre.append('O %d %d' % (w, b))
+            if w == 0:
+                ok = bool(b)
+    return cfg_line(r, mode, slots, t0, applist, only_known) + ' | ' + ' ; '.join(pre + finish(ops))
 
 
 def all_lengths_case(r, pgn, fast, lo, hi, slots=5, mode=0, short=False):
